@@ -100,6 +100,10 @@ def dump_to_yaml(circuit, path: str, **kwargs) -> None:
     dict_repr = {}
     dict_from_circuit(circuit, dict_repr)
 
+    # values that entered the templates as numpy objects (weights from `add_edges_from_matrix`, per-node values from
+    # `update_var` with an array, ...) are written as the plain numbers and lists they stand for
+    dict_repr = _to_plain(dict_repr)
+
     from ruamel.yaml import YAML
     yaml = YAML()
 
@@ -108,3 +112,16 @@ def dump_to_yaml(circuit, path: str, **kwargs) -> None:
     from pathlib import Path
     path = Path(path)
     yaml.dump(dict_repr, path, **kwargs)
+
+
+def _to_plain(obj):
+    import numpy as np
+    if isinstance(obj, dict):
+        return {_to_plain(key): _to_plain(val) for key, val in obj.items()}
+    if isinstance(obj, (list, tuple)):
+        return [_to_plain(val) for val in obj]
+    if isinstance(obj, np.ndarray):
+        return obj.tolist()
+    if isinstance(obj, np.generic):
+        return obj.item()
+    return obj
